@@ -85,14 +85,16 @@ end KS
 
 /-! ### glob patterns (only `*` is special in what cashews promises) -/
 
+/-- `*` may swallow any prefix of the rest of the key before the rest of the pattern (`k`) takes over -/
+def starMatch (k : List Char → Bool) : List Char → Bool
+  | [] => k []
+  | c :: s => k (c :: s) || starMatch k s
+
 def globMatch : List Char → List Char → Bool
-  | [], [] => true
-  | [], _ :: _ => false
-  | '*' :: p, [] => globMatch p []
-  | '*' :: p, c :: s => globMatch p (c :: s) || globMatch ('*' :: p) s
+  | [], s => s.isEmpty
+  | '*' :: p, s => starMatch (globMatch p) s
   | _ :: _, [] => false
   | a :: p, c :: s => a == c && globMatch p s
-termination_by p s => p.length + s.length
 
 def glob (pat key : String) : Bool := globMatch pat.toList key.toList
 
